@@ -98,7 +98,11 @@ func resetFieldsViolation(t *pokertable.Table) string {
 	return ""
 }
 
-func c07Body(c *run.Ctx) {
+func c07Body(c *run.Ctx) { c07BodyIv(c, 0) }
+
+// c07BodyIv: interval > 0 runs the table with a real continue delay of that many
+// seconds and issues control operations at drawn offsets inside it.
+func c07BodyIv(c *run.Ctx, interval int) {
 	nontrivial := false
 	l := &lifeCycle{c: c, gameIDs: map[string]bool{}}
 	standbySeen := false
@@ -191,9 +195,66 @@ func c07Body(c *run.Ctx) {
 		}
 	}
 	control := ""
+	// operations inside the real continue delay (interval > 0 only)
+	delayOp, delayOffset, endNow := "", 0, false
+	opCertainlyFirst := false // the operation returned < 0.9 s after the settlement was published: the 1 s continue step cannot have run yet
+	hooks.Settled = func(s *sim.Sim, h *sim.Hand) {
+		if delayOp == "" {
+			return
+		}
+		time.Sleep(time.Duration(delayOffset) * 100 * time.Millisecond)
+		switch delayOp {
+		case "close", "release":
+			l.external = true
+			var err error
+			if delayOp == "close" {
+				err = s.API.CloseTable()
+			} else {
+				err = s.API.ReleaseTable()
+			}
+			c.Ch.Note("  %s %d00 ms into the continue delay -> %v", delayOp, delayOffset, err)
+			noOpenAfter, noOpenWhy = s.EventsTotal(), delayOp+"d"
+		case "break":
+			b := s.Cfg.Blind
+			s.API.UpdateBlind(-1, b.Ante, b.Dealer, b.SB, b.BB)
+			c.Ch.Note("  UpdateBlind(-1) %d00 ms into the continue delay", delayOffset)
+			noOpenAfter, noOpenWhy = s.EventsTotal(), "on-a-break"
+		case "arrival":
+			mo := sim.MemOpts{NewPlayer: 3, NewRandom: 1, JoinSitter: 2, Rebuy: 2, Addon: 2, KeepSitting: 20, MaxNewID: 12, TopupAnyone: true}
+			if op := s.RandomMembershipOp(mo); op != nil {
+				c.Ch.Note("  %s %d00 ms into the continue delay", op.Kind, delayOffset)
+			}
+		}
+		opCertainlyFirst = time.Since(h.SettledAt) < 900*time.Millisecond
+		s.Label("delay_" + delayOp)
+		nontrivial = true
+	}
 	o.BeforeHand = func(s *sim.Sim, n int) bool {
+		if endNow {
+			return false
+		}
 		if n >= 2 {
 			handsInARow++
+		}
+		if interval > 0 {
+			delayOp = ""
+			switch choose.Weighted(c.Ch, "delay.op", []int{3, 2, 2, 2, 3}) {
+			case 1:
+				delayOp = "close"
+			case 2:
+				delayOp = "release"
+			case 3:
+				delayOp = "break"
+			case 4:
+				delayOp = "arrival"
+			}
+			delayOffset = c.Ch.Int("delay.offset", 0, 14) // up to 1.4 s: both sides of the 1 s delay
+			if delayOp == "close" || delayOp == "release" {
+				s.FenceWait = 1500 * time.Millisecond
+			}
+			if delayOp != "" {
+				return true // one control operation per hand
+			}
 		}
 		// repeated set-up calls while the gate is pending (same and different game count)
 		if choose.Chance(c.Ch, "ctl.doublesetup", 12) {
@@ -233,6 +294,27 @@ func c07Body(c *run.Ctx) {
 		return true
 	}
 	o.AfterHand = func(s *sim.Sim, h *sim.Hand) {
+		if (delayOp == "close" || delayOp == "release" || delayOp == "break") && h.SettledT != nil {
+			// whichever of the operation and the delayed continue step came first, no hand may
+			// open now; if the continue step won, the gate is armed: complete it and watch
+			if h.Outcome == "gate" {
+				if opCertainlyFirst {
+					c.Failf("C07.setup-after-"+delayOp, "%s took effect %d00 ms into the 1 s continue delay (certainly before the continue step), but the next hand was set up", delayOp, delayOffset)
+				}
+				s.Label("delay_op_after_continue_step")
+				s.Deliver(s.PlanSignals(0))
+			} else {
+				s.Label("delay_op_before_continue_step")
+				if delayOp == "break" && h.Outcome != "paused" {
+					c.Failf("C07.no-pause-on-break", "the level became a break %d00 ms into the continue delay; afterwards the table did: %s (status %s)", delayOffset, h.Outcome, h.After.State.Status)
+				}
+			}
+			s.WaitFor(500*time.Millisecond, func(e *sim.Event) bool { return false })
+			s.Quiesce(300 * time.Millisecond)
+			s.Drain()
+			endNow = true
+			return
+		}
 		if control == "close_in_settled_cb" && h.SettledT != nil {
 			s.Label("close_in_settled_cb")
 			nontrivial = true
@@ -277,12 +359,28 @@ func c07Body(c *run.Ctx) {
 			c.Ch.Note("  SetUpTableGame(%d) while the hand runs", gc)
 		}
 	}
-	s := RunHistory(c, o, hooks, nil)
+	var s *sim.Sim
+	if interval > 0 {
+		o.MinHands, o.MaxHands = 1, 3
+		cfg := sim.GenConfig(c.Ch, o.Gen)
+		cfg.Interval = interval
+		s = RunHistoryCfg(c, cfg, o, hooks, nil)
+		s.Label("real_continue_delay")
+	} else {
+		s = RunHistory(c, o, hooks, nil)
+	}
 	s.Label(fmt.Sprintf("hands_%d", len(s.Hands)))
 	if s.Cfg.Mode == pokertable.CompetitionMode_MTT {
 		s.Label("mtt_balancing")
 	}
 	c.St.Case(s.Labels(), nontrivial, traceOf(s), sampleOf(s))
+}
+
+var c07iStats = ev.New("C07", "c07i")
+
+// the same histories with a real 1 s continue delay and operations inside it
+func TestC07Interval(t *testing.T) {
+	run.Property(t, "C07", "c07i", c07iStats, run.Scale(4, 16), func(c *run.Ctx) { c07BodyIv(c, 1) })
 }
 
 func TestC07(t *testing.T) {
